@@ -178,13 +178,12 @@ def r3(ctx: Ctx) -> None:
             if var is None:
                 continue
             ctx.check(l.init.get(var) == ("const", 0), gs, l.node, "the first session starts at 0", "0", short(l.init.get(var)))
-            el = ("sym", f"{l.target[0]}∈{l.loopid}")
-            want = poly_of(("bin", "+", l.phi[var], ("sub", el, ("const", "iterationSteps"))))
+            wants = {poly_of(("bin", "+", l.phi[var], ("sub", ("sym", f"{t}∈{l.loopid}"), ("const", "iterationSteps")))) for t in l.target}
             for bp in l.paths:
                 if bp.exit[0] == "raise":
                     continue
                 got = bp.env.get(var)
-                ctx.check(got is not None and poly_of(strip_ver(got)) == want, gs, l.node, "next start = this start + this session's iterationSteps", f"{var} + session_setting['iterationSteps']", short(got))
+                ctx.check(got is not None and poly_of(strip_ver(got)) in wants, gs, l.node, "next start = this start + this session's iterationSteps", f"{var} + session_setting['iterationSteps']", short(got))
     ctx.require(found, "_generate_sessions: Session construction loop not found")
     ss = ctx.func("Session.setup")
     for p in normal_paths(ctx.paths(ss.qualname)):
@@ -201,15 +200,16 @@ def _is_future_guard(c: Term, pol: bool, idx: Term) -> bool:
     now = ("attr", ("sym", "self"), "time")
     if c == ("cmp", "<", now, idx) and not pol:
         return True
-    agg = None
-    if c[0] == "cmp" and c[1] == "<" and c[2] == ("const", 0) and c[3][0] == "call" and key(c[3][1]) == "sum" and not pol:
-        agg = c[3][2][0] if c[3][2] else None
-    elif c[0] == "call" and key(c[1]) == "any" and not pol:
-        agg = c[2][0] if c[2] else None
-    if agg is not None and agg[0] == "comp" and len(agg[3]) == 1 and not agg[3][0][2] and agg[3][0][1] == idx and len(agg[3][0][0]) == 1:
-        b = ("bound", agg[3][0][0][0])
-        elt = agg[2]
-        return elt in (("cmp", ">", b, now), ("cmp", "<", now, b))
+    from ..kit import forall_pred
+
+    fa = forall_pred(c, pol)
+    if fa is not None:
+        pred, gens = fa
+        if len(gens) == 1 and not gens[0][2] and strip_ver(gens[0][1]) == idx and len(gens[0][0]) == 1:
+            b = ("bound", gens[0][0][0])
+            # for every t: not (now < t)
+            if pred in (("not", ("cmp", "<", now, b)), ("cmp", "<=", b, now)):
+                return True
     if c[0] == "cmp" and c[1] == "<" and c[2] == now and c[3] == ("call", ("name", "max"), (idx,), (), None) and not pol:
         return True
     return False
